@@ -108,6 +108,29 @@ pub fn run(prop: &E1Prop, tier: Tier) -> i32 {
     // 1. replay files of known findings
     replay_findings(prop, &findings, &mut rep, &mut stats);
 
+    // 1b. R0: saved inputs of repaired defects (plain regression checks, no generator involved)
+    for (name, c) in crate::run::load_regressions(prop.id) {
+        let Ok(case) = serde_json::from_value::<Case>(c) else {
+            stats.notes.push(format!("regression file {name}: unreadable case"));
+            continue;
+        };
+        let (out, ticks) = run_format(&case);
+        match crate::engine::guarded(|| (prop.oracle)(&case, &out, ticks)) {
+            Ok(Verdict::Fail(d)) => {
+                stats.count("R0-regression");
+                rep.violation(replay_value(prop.id, &case, &d, &format!("R0:{name}")), "R0");
+            }
+            Ok(Verdict::Pass { nontrivial }) => {
+                stats.count("R0-regression");
+                if nontrivial {
+                    stats.nontrivial.insert(case.hash64());
+                }
+            }
+            Ok(Verdict::Skip(w)) => stats.skip(w),
+            Err(p) => stats.notes.push(format!("HARNESS-PANIC in oracle (regression {name}): {p}")),
+        }
+    }
+
     // development aid: VERIF_ONLY=T2 runs the metamorphic tier alone, VERIF_T2_CASES overrides its size
     let only_t2 = std::env::var("VERIF_ONLY").map_or(false, |v| v == "T2");
     // 2. T0: corpus x catalogue
